@@ -156,6 +156,14 @@ func (t *transport) dialWithScope(ctx context.Context, raddr ma.Multiaddr, p pee
 		pconn.CloseWithError(1, "")
 		return nil, errors.New("p2p/transport/quic BUG: expected remote pub key to be set")
 	}
+	if p == "" {
+		// Dialed without an expected peer: the remote peer is whoever authenticated.
+		p, err = peer.IDFromPublicKey(remotePubKey)
+		if err != nil {
+			pconn.CloseWithError(1, "")
+			return nil, err
+		}
+	}
 
 	localMultiaddr, err := quicreuse.ToQuicMultiaddr(pconn.LocalAddr(), pconn.ConnectionState().Version)
 	if err != nil {
